@@ -40,6 +40,11 @@ def _hashes():
     return hashes.generate(os.path.join(REPO, 'src/quantity/__init__.py'))
 
 
+def _inventory():
+    from . import inventory
+    return inventory.generate(os.path.join(REPO, 'src/quantity/__init__.py'))
+
+
 def _temptable():
     from . import temptable
     return temptable.generate(os.path.join(REPO, 'src/quantity/predefined.py'))
@@ -73,6 +78,7 @@ GENERATORS = [
     ('ConvStackImpl', _cstack),
     ('EffectsImpl', _effects),
     ('HashImpl', _hashes),
+    ('StateInventory', _inventory),
     ('TempTable', _temptable),
     ('IsoTable', _isotable),
     ('Catalogue', _catalogue),
